@@ -36,6 +36,16 @@ pub const FIXED: &[(&str, &str)] = &[
     ("ok-many-generics", "struct V_G<T, U, V>(v_a: T, v_b: U, v_c: V)\nfn v_mk<T, U, V>(v_a: T, v_b: U, v_c: V)->V_G<T, U, V>{ V_G(v_a, v_b, v_c) }\nfn main()->bool{ v_mk(1, \"a\", 2.0)::v_a == 1 && display(v_mk(true, 2, \"z\")::v_b) == 2 }"),
     ("ok-forward-chain", "forward fn v_a(v_x: int)->int;\nforward fn v_b(v_x: int)->int;\nfn v_use(v_x: int)->int{ if(v_x <= 0, 0, v_a(v_x - 1) + v_b(v_x - 1)) }\nfn v_a(v_x: int)->int{ v_use(v_x) + 1 }\nfn v_b(v_x: int)->int{ v_use(v_x) + 2 }\nfn main()->bool{ display(v_use(4)) > 0 }"),
     ("ok-set-iteration", "fn main()->bool{ display(set<int>().update(range(40)).to_array().len()) == 40 && display(mapping<str>().set(\"a\", 1).set(\"b\", 2).set(\"c\", 3).len()) == 3 }"),
+    ("auto-nested-in-generic", "fn v_foo(v_a: Sequence<int>)->int{ 1 }\nlet v_x = v_foo{Sequence<$>}([1]);\nfn main()->bool{ true }"),
+    ("auto-nested-sum", "let v_x = sum{Sequence<$>}([1]);\nfn main()->bool{ true }"),
+    ("auto-nested-optional", "let v_x = hash{Optional<$>};\nfn main()->bool{ true }"),
+    ("auto-top-level-ok", "fn v_foo(v_a: int)->int{ v_a }\nlet v_x = v_foo{$}(1);\nfn main()->bool{ v_x == 1 }"),
+    ("auto-in-type-position", "fn v_foo(v_a: $)->int{ 1 }\nfn main()->bool{ true }"),
+    ("auto-without-call", "fn v_foo(v_a: int)->int{ v_a }\nlet v_x = v_foo{$};\nfn main()->bool{ true }"),
+    ("item64-value-not-found", "let v_y = item64;\nfn main()->bool{ true }"),
+    ("item63-value-not-found", "let v_y = item63;\nfn main()->bool{ true }"),
+    ("item64-member-not-found", "struct V_A(v_a: int)\nlet v_v = V_A(1)::item64;\nfn main()->bool{ true }"),
+    ("item200-twice", "let v_y = item200 + item200;\nfn main()->bool{ true }"),
     ("syntax-error", "fn main()->bool{ (1 + }"),
     ("unknown-type", "fn main()->Sequnce<int>{ [] }"),
     ("empty", ""),
@@ -84,6 +94,27 @@ pub fn unicode_span_texts() -> Vec<(String, String)> {
         }
     }
     out
+}
+
+/// programs for a host's own root scope (no std library): compiled *after* std programs in the same process
+pub fn sandbox_texts() -> Vec<(String, String)> {
+    vec![
+        ("sandbox:operators".to_string(), "fn add(a: bool, b: bool)->bool{ a }\nfn eq(a: bool, b: bool)->bool{ b }\nfn main()->bool{ (true + false) == true }".to_string()),
+        ("sandbox:all-operators".to_string(), "fn add(a: bool, b: bool)->bool{ a }\nfn sub(a: bool, b: bool)->bool{ a }\nfn mul(a: bool, b: bool)->bool{ b }\nfn lt(a: bool, b: bool)->bool{ b }\nfn and(a: bool, b: bool)->bool{ b }\nfn eq(a: bool, b: bool)->bool{ b }\nfn main()->bool{ ((true + false) - true) * true == true && (false < true) }".to_string()),
+        ("sandbox:missing-operator".to_string(), "fn main()->bool{ true + false }".to_string()),
+    ]
+}
+
+/// long tuples: member names item<N> beyond any small table
+pub fn long_tuple_texts() -> Vec<(String, String)> {
+    [63usize, 64, 65, 70, 130]
+        .iter()
+        .map(|n| {
+            let tup = format!("({})", (0..*n).map(|i| i.to_string()).collect::<Vec<_>>().join(", "));
+            let last = n - 1;
+            (format!("fixed:tuple-{n}"), format!("let v_t = {tup};\nfn main()->bool{{ v_t::item{last} + v_t::item{last} == {} && v_t::item0 == 0 }}", 2 * last))
+        })
+        .collect()
 }
 
 pub fn book_examples() -> Vec<(String, String)> {
